@@ -324,6 +324,9 @@ func (vc *VC) scriptRegionGroup(nStart, nLines int, tail string, group string) s
 }
 
 func (vc *VC) scriptRegionSliced(nStart, nLines int, tail string, seed string) string {
+	if nStart > nLines {
+		nStart = 0
+	}
 	if nStart <= vc.entryLines {
 		return vc.scriptSliced(nLines, tail, seed, seed != "")
 	}
